@@ -24,6 +24,14 @@ package keepclient
 //  R3 a cache entry without error equals the block; after any sequence of
 //     misbehaviour, reads with all services behaving succeed with the right
 //     bytes (a bad response / an error was not kept in the cache).
+//
+// Stream "rw": the collection filesystem a file is read from is writable.
+// 2-3 handles are open on one file of one filesystem; some of them overwrite
+// or append (Seek+Write in several calls) while the others keep reading. The
+// harness keeps a byte-array model of the file and of which byte positions
+// are still backed by a Keep block; R1/R2 are applied to exactly those bytes
+// (what a read returns for bytes that were written through the filesystem is
+// not the subject of C03 and is only counted).
 
 import (
 	"bytes"
@@ -45,6 +53,7 @@ import (
 	"testing"
 
 	"git.arvados.org/arvados.git/internal/verifkit"
+	"git.arvados.org/arvados.git/sdk/go/arvados"
 	"git.arvados.org/arvados.git/sdk/go/arvadosclient"
 )
 
@@ -89,6 +98,24 @@ type c03Reader struct {
 	Len   int         `json:"len,omitempty"`
 	File  string      `json:"file,omitempty"`
 	Ops   []c03FileOp `json:"ops,omitempty"`
+	RW    *c03RWSpec  `json:"rw,omitempty"` // kind rw: interleaved operations of several handles on File
+}
+
+// c03RWOp is one operation of handle H. seek: Off is the absolute target
+// (-1: the current end of the file), expressed relative to Whence at run
+// time. write: N bytes drawn from WSeed at the handle's position.
+type c03RWOp struct {
+	H      int    `json:"h"`
+	Op     string `json:"op"` // read | seek | write
+	N      int    `json:"n,omitempty"`
+	Off    int64  `json:"off,omitempty"`
+	Whence int    `json:"whence,omitempty"`
+	WSeed  uint64 `json:"wseed,omitempty"`
+}
+
+type c03RWSpec struct {
+	Writable []bool    `json:"writable"` // per handle: opened O_RDWR, else O_RDONLY
+	Ops      []c03RWOp `json:"ops"`
 }
 
 type c03Round struct {
@@ -876,6 +903,86 @@ func c03Generate(rng *verifkit.Rand, nohintCache, thorough bool) c03Case {
 	return c
 }
 
+// c03GenerateRW: one file of 1-3 segments over 1-3 small blocks, 2-3 handles
+// (handle 0 always writable), 6-40 interleaved operations. Writers mostly do
+// runs of small consecutive writes (so that a region is overwritten in
+// several Write calls and most of the file stays backed by Keep); readers
+// mostly do small sequential reads with an occasional Seek. Services
+// misbehave as in the main stream, but rarely.
+func c03GenerateRW(rng *verifkit.Rand, thorough bool) c03Case {
+	c := c03Case{Mode: "rw", NSvc: rng.Range(1, 3), Retries: rng.Range(0, 2), MaxBlocks: rng.PickInt(0, 1, 2, 4), JSONRoots: rng.Bool()}
+	nblk := rng.Range(1, 3)
+	total := 0
+	for b := 0; b < nblk; b++ {
+		var size int
+		switch r := rng.Intn(100); {
+		case r < 10:
+			size = rng.Range(1, 8)
+		case r < 65:
+			size = rng.Range(8, 200)
+		case r < 95 || !thorough:
+			size = rng.Range(200, 3000)
+		default:
+			size = rng.PickInt(4095, 4096, 4097, 32768)
+		}
+		total += size
+		c.Blocks = append(c.Blocks, c03Block{Seed: rng.Uint64(), Size: size, Hint: true})
+	}
+	fs := c03FileSpec{Name: "f0"}
+	flen := 0
+	for s, nseg := 0, rng.Range(1, 3); s < nseg; s++ {
+		pos := rng.Intn(total)
+		l := rng.Range(1, total-pos)
+		if rng.Chance(1, 3) {
+			pos, l = 0, total
+		}
+		fs.Segs = append(fs.Segs, [2]int{pos, l})
+		flen += l
+	}
+	c.Files = []c03FileSpec{fs}
+	var rd c03Round
+	rd.Scripts, rd.Tail = c03GenScripts(rng, &c, rng.PickInt(60, 80, 100, 100))
+
+	spec := &c03RWSpec{}
+	nh := rng.Range(2, 3)
+	for h := 0; h < nh; h++ {
+		spec.Writable = append(spec.Writable, h == 0 || rng.Chance(1, 3))
+	}
+	target := func() int64 {
+		if rng.Chance(1, 5) {
+			return int64(rng.PickInt(0, flen, flen-1, 1, -1))
+		}
+		return int64(rng.Range(0, flen))
+	}
+	// most handles start somewhere inside the file
+	for h := 0; h < nh; h++ {
+		if rng.Chance(3, 4) {
+			spec.Ops = append(spec.Ops, c03RWOp{H: h, Op: "seek", Off: int64(rng.Range(0, flen)), Whence: io.SeekStart})
+		}
+	}
+	for i, nops := 0, rng.Range(6, 40); i < nops; i++ {
+		h := rng.Intn(nh)
+		r := rng.Intn(100)
+		wr, sk := 0, 15 // percentages of write and seek; the rest is read
+		if spec.Writable[h] {
+			wr, sk = 60, 12
+		}
+		switch {
+		case r < wr:
+			n := rng.PickInt(1, 1, 2, 3, rng.Range(1, 16), rng.Range(1, flen/8+1), rng.Range(1, flen/2+1))
+			spec.Ops = append(spec.Ops, c03RWOp{H: h, Op: "write", N: n, WSeed: rng.Uint64()})
+		case r < wr+sk:
+			spec.Ops = append(spec.Ops, c03RWOp{H: h, Op: "seek", Off: target(), Whence: rng.Intn(3)})
+		default:
+			n := rng.PickInt(1, 2, 4, rng.Range(1, 64), rng.Range(1, 64), rng.Range(1, flen/2+10), flen+100, 0)
+			spec.Ops = append(spec.Ops, c03RWOp{H: h, Op: "read", N: n})
+		}
+	}
+	rd.Readers = []c03Reader{{Kind: "rw", File: "f0", RW: spec}}
+	c.Rounds = []c03Round{rd}
+	return c
+}
+
 // ------------------------------------------------------------------ execution
 
 // c03Res is what one reader operation observably did.
@@ -897,6 +1004,7 @@ type c03Res struct {
 // guards at the end of a batch.
 type c03Tally struct {
 	cases, bad200, errs, succ, hits, healed, conc int
+	rwCases, rwStale                              int
 }
 
 type c03Env struct {
@@ -911,6 +1019,7 @@ type c03Env struct {
 	files  map[string][]byte // reference content of every file
 	fblk   map[string][]uint8
 	coll   map[string]interface{}
+	rwSeen map[string]bool // rw mode: reader situations in which Keep-backed bytes were delivered
 }
 
 func c03NewKC(pool *c03Pool, c *c03Case, svcMap []int) (*KeepClient, error) {
@@ -1155,6 +1264,222 @@ func (e *c03Env) doFile(rd c03Reader, each func(c03Res) bool) {
 	}
 }
 
+// doRW runs the interleaved operations of several handles opened on one
+// file of ONE collection filesystem. The model is a byte array plus, per
+// byte, whether it is still the content of a Keep block (positions written
+// through the filesystem are not). Every Read yields a result whose
+// reference equals the model at the Keep-backed positions and what was
+// delivered elsewhere, so that the verdict is about Keep-backed bytes only.
+func (e *c03Env) doRW(rd c03Reader, each func(c03Res) bool) {
+	spec := rd.RW
+	run := e.run
+	cfs, err := (&arvados.Collection{ManifestText: e.c.Manifest}).FileSystem(nil, e.kc)
+	if err != nil {
+		each(c03Res{reader: "file", blk: -1, err: err, detail: "open-failed"})
+		return
+	}
+	content := append([]byte(nil), e.files[rd.File]...)
+	fblk := append([]uint8(nil), e.fblk[rd.File]...)
+	keep := make([]bool, len(content))
+	for i := range keep {
+		keep[i] = true
+	}
+	nh := len(spec.Writable)
+	fh := make([]arvados.File, nh)
+	for h := range fh {
+		flag := os.O_RDONLY
+		if spec.Writable[h] {
+			flag = os.O_RDWR
+		}
+		f, err := cfs.OpenFile(rd.File, flag, 0)
+		if err != nil {
+			each(c03Res{reader: "file", blk: -1, err: err, detail: "open-failed"})
+			return
+		}
+		defer f.Close()
+		fh[h] = f
+	}
+	pos := make([]int64, nh)
+	ownWrote := make([]bool, nh)
+	otherWrote := make([]bool, nh)     // another handle wrote to the file at some point
+	otherSinceMove := make([]bool, nh) // ... since this handle was last positioned explicitly (open / Seek that moved it)
+	readSinceMove := make([]bool, nh)  // this handle has read or written since it was last positioned explicitly
+	wroteAny := false
+	e.tally.rwCases++
+	run.Count("rw_cases", 1)
+
+	// readKeep reads through handle f at model position p and judges
+	judgeRead := func(reader string, p int64, got []byte, err error) bool {
+		res := c03Res{reader: reader, blk: -1, off: int(p), err: err, got: got}
+		switch err {
+		case nil:
+			res.success = true
+		case io.EOF:
+			res.success, res.atEnd = true, true
+		}
+		ref := content
+		nkeep, nmem, memdiff := 0, 0, 0
+		end := int(p) + len(got)
+		if end > len(content) {
+			end = len(content)
+		}
+		for i := int(p); i < end; i++ {
+			if keep[i] {
+				if nkeep == 0 {
+					res.blk = int(fblk[i])
+				}
+				nkeep++
+				continue
+			}
+			if nmem == 0 {
+				ref = append([]byte(nil), content...)
+			}
+			nmem++
+			if ref[i] != got[i-int(p)] {
+				memdiff++
+				ref[i] = got[i-int(p)] // not C03's business
+			}
+		}
+		res.ref = ref
+		if res.atEnd && int(p)+len(got) < len(content) {
+			rest := false
+			for i := int(p) + len(got); i < len(content) && !rest; i++ {
+				rest = keep[i]
+			}
+			if !rest {
+				// early end of data in front of written bytes only: not C03's business
+				res.atEnd = false
+				run.Count("rw_eof_before_written_bytes_only", 1)
+			}
+		}
+		if res.success {
+			run.Count("rw_keep_bytes_delivered", nkeep)
+			run.Count("rw_written_bytes_delivered", nmem)
+			if memdiff > 0 {
+				run.Count("rw_written_bytes_differ_from_model(not judged)", memdiff)
+			}
+			if nkeep > 0 {
+				e.rwSeen[reader] = true
+			}
+		}
+		return each(res)
+	}
+
+	for _, op := range spec.Ops {
+		h := op.H
+		f := fh[h]
+		switch op.Op {
+		case "seek":
+			target := op.Off
+			if target < 0 || target > int64(len(content)) {
+				target = int64(len(content))
+			}
+			var off int64
+			switch op.Whence {
+			case io.SeekStart:
+				off = target
+			case io.SeekCurrent:
+				off = target - pos[h]
+			case io.SeekEnd:
+				off = target - int64(len(content))
+			}
+			np, err := f.Seek(off, op.Whence)
+			if err != nil || np != target {
+				each(c03Res{reader: "file-seek", blk: -1, err: err, detail: fmt.Sprintf("rw: handle %d seek(%d,%d) from %d returned (%d,%v), want %d (model size %d)", h, off, op.Whence, pos[h], np, err, target, len(content))})
+				return
+			}
+			if np != pos[h] {
+				otherSinceMove[h], readSinceMove[h] = false, false
+			}
+			pos[h] = np
+			run.Count("rw_seeks", 1)
+		case "write":
+			data := verifkit.NewRand(op.WSeed).Bytes(op.N)
+			n, err := f.Write(data)
+			if err != nil || n != len(data) {
+				run.Inconclusive(fmt.Sprintf("C03 rw: Write of %d bytes at %d through a writable handle returned (%d, %v)", len(data), pos[h], n, err))
+				return
+			}
+			p := int(pos[h])
+			for len(content) < p+n {
+				content = append(content, 0)
+				keep = append(keep, false)
+				fblk = append(fblk, 0)
+			}
+			copy(content[p:], data)
+			for i := p; i < p+n; i++ {
+				keep[i] = false
+			}
+			pos[h] += int64(n)
+			ownWrote[h], readSinceMove[h], wroteAny = true, true, true
+			for o := range otherWrote {
+				if o != h {
+					otherWrote[o], otherSinceMove[o] = true, true
+				}
+			}
+			run.Count("rw_writes", 1)
+		default: // read
+			reader := "file"
+			switch {
+			case otherSinceMove[h] && readSinceMove[h]:
+				// the handle goes on reading where it was while
+				// somebody else has changed the file in between
+				reader = "file+other-handle-wrote-since-positioned"
+				e.tally.rwStale++
+				run.Count("rw_reads_continuing_after_other_handle_wrote", 1)
+			case otherWrote[h]:
+				reader = "file+other-handle-wrote"
+			case ownWrote[h]:
+				reader = "file+own-write"
+			}
+			buf := make([]byte, op.N)
+			n, err := f.Read(buf)
+			if n < 0 || n > len(buf) {
+				each(c03Res{reader: reader, blk: -1, off: int(pos[h]), ref: content, err: err, success: true, got: []byte("?"),
+					detail: fmt.Sprintf("n=%d out of range for len(p)=%d", n, len(buf))})
+				return
+			}
+			if !judgeRead(reader, pos[h], buf[:n], err) {
+				return
+			}
+			if err == nil || err == io.EOF {
+				pos[h] += int64(n)
+				readSinceMove[h] = true
+			} else {
+				// position after a failed read is unspecified: re-seek
+				np, err := f.Seek(pos[h], io.SeekStart)
+				if err != nil || np != pos[h] {
+					return
+				}
+			}
+		}
+	}
+	// a fresh handle on the same filesystem reads the whole file
+	f, err := cfs.OpenFile(rd.File, os.O_RDONLY, 0)
+	if err != nil {
+		each(c03Res{reader: "file", blk: -1, err: err, detail: "open-failed"})
+		return
+	}
+	defer f.Close()
+	reader := "file"
+	if wroteAny {
+		reader = "file+other-handle-wrote"
+	}
+	p := int64(0)
+	buf := make([]byte, len(content)+16)
+	for k := 0; k < 1000; k++ {
+		n, err := f.Read(buf)
+		if n < 0 || n > len(buf) || !judgeRead(reader, p, buf[:n], err) {
+			return
+		}
+		if err != nil {
+			// EOF, or an error: scripted misbehaviour may make this read fail
+			return
+		}
+		p += int64(n)
+	}
+}
+
 func c03ErrClass(err error) string {
 	if err == nil {
 		return "nil"
@@ -1254,8 +1579,8 @@ func (e *c03Env) judge(res c03Res, class string, bad200 bool) {
 		wrong = fmt.Sprintf("delivered %d bytes at offset %d that differ from the block/file content at byte %d", len(res.got), res.off, res.off+d)
 	case res.atEnd && res.off <= len(res.ref) && res.off+len(res.got) != len(res.ref):
 		wrong = fmt.Sprintf("end of data signalled after %d of %d bytes", res.off+len(res.got), len(res.ref))
-		if res.reader == "file" {
-			run.Violation("C03:R1:file:eof-before-true-end:"+c03SigClass(class), fmt.Sprintf("File.Read: %s (err=%v); response consumed: %s", wrong, res.err, class), e.c)
+		if strings.HasPrefix(res.reader, "file") {
+			run.Violation("C03:R1:"+res.reader+":eof-before-true-end:"+c03SigClass(class), fmt.Sprintf("File.Read: %s (err=%v); response consumed: %s", wrong, res.err, class), e.c)
 			return
 		}
 	}
@@ -1344,7 +1669,7 @@ func c03Attribute(served [][]c03Served) (class string, bad200 bool, n200 int, an
 
 func c03Execute(run *verifkit.Run, pool *c03Pool, c *c03Case, tally *c03Tally) {
 	tally.cases++
-	e := &c03Env{run: run, tally: tally, pool: pool, c: c, files: map[string][]byte{}, fblk: map[string][]uint8{}}
+	e := &c03Env{run: run, tally: tally, pool: pool, c: c, files: map[string][]byte{}, fblk: map[string][]uint8{}, rwSeen: map[string]bool{}}
 	// blocks
 	var stream []byte
 	var sblk []uint8
@@ -1441,7 +1766,7 @@ func c03Execute(run *verifkit.Run, pool *c03Pool, c *c03Case, tally *c03Tally) {
 					run.Note(fmt.Sprintf("more than one 200 response within one serial %s operation", res.reader))
 					class, bad200 = "", false
 				}
-				if res.success && !any && (res.reader == "readat" || res.reader == "file") && len(res.got) > 0 {
+				if res.success && !any && (res.reader == "readat" || strings.HasPrefix(res.reader, "file")) && res.blk >= 0 && len(res.got) > 0 {
 					run.Count("cache_hits", 1)
 					e.tally.hits++
 				}
@@ -1461,6 +1786,8 @@ func c03Execute(run *verifkit.Run, pool *c03Pool, c *c03Case, tally *c03Tally) {
 					after(e.doReadAt(r))
 				case "file":
 					e.doFile(r, after)
+				case "rw":
+					e.doRW(r, after)
 				default:
 					after(e.doStream(r))
 				}
@@ -1596,6 +1923,30 @@ func c03Execute(run *verifkit.Run, pool *c03Pool, c *c03Case, tally *c03Tally) {
 	}
 
 	// ---- feature tuple
+	if c.Mode == "rw" {
+		// non-trivial: Keep-backed bytes were delivered through a handle
+		// after another handle had written to the file
+		var seen []string
+		for k := range e.rwSeen {
+			seen = append(seen, strings.TrimPrefix(k, "file"))
+		}
+		sort.Strings(seen)
+		if !e.rwSeen["file+other-handle-wrote-since-positioned"] && !e.rwSeen["file+other-handle-wrote"] {
+			run.Trivial()
+			return
+		}
+		var oc []string
+		for k := range outcomes {
+			oc = append(oc, k)
+		}
+		sort.Strings(oc)
+		bad := "all-good"
+		if anyBadServed {
+			bad = "misbehaving-service"
+		}
+		run.Feature(fmt.Sprintf("rw|%dh|%dseg|%s|%s|%s", len(c.Rounds[0].Readers[0].RW.Writable), len(c.Files[0].Segs), strings.Join(seen, ","), bad, strings.Join(oc, ",")))
+		return
+	}
 	if !anyBadServed {
 		run.Trivial()
 		return
@@ -1762,6 +2113,19 @@ func TestVerifC03(t *testing.T) {
 			run.Sample(&c)
 		}
 	})
+
+	// several handles on one file of a writable collection filesystem
+	run.Cases("rw", run.N(480, 12000), func(i int, rng *verifkit.Rand) {
+		c := c03GenerateRW(rng, run.Thorough())
+		run.Input(&c, true)
+		c03Execute(run, pool, &c, &tally)
+		if i < 2 {
+			run.Sample(&c)
+		}
+	})
+	if !run.Replaying() && tally.rwCases >= 20 && tally.rwStale == 0 {
+		run.Inconclusive(fmt.Sprintf("C03: %d rw cases but no handle ever went on reading after another handle had written", tally.rwCases))
+	}
 
 	run.Cases("drain", c03DrainCount(run.Thorough()), func(i int, rng *verifkit.Rand) {
 		c := c03DrainCase(i, run.Thorough())
